@@ -12,7 +12,9 @@ REQUIRED_THEOREMS = [
     'OpusProps.C01.decodeNative_ret', 'OpusProps.C01.decodeNative_ret_pure', 'OpusProps.C01.decodeNative_oracle_args',
     'OpusProps.C01.decodeNative_writes', 'OpusProps.C01.decodeNative_duration', 'OpusProps.C01.decodeNative_plc_duration',
     'OpusProps.C01.decodeNative_error_leaves_state', 'OpusProps.C01.decodeApi_ret',
-    'OpusProps.C01.plc_chunk_recursion_depth', 'OpusProps.C01.msDecode_ret',
+    'OpusProps.C01.plc_chunk_recursion_depth', 'OpusProps.C01.msDecode_ret', 'OpusProps.C01.msDecodeFull_ret',
+    'OpusProps.C01.msDecode_writes', 'OpusProps.C01.msDecode_refines', 'OpusProps.C01.int_ranges',
+    'OpusProps.C01.nativeRet_depends_on_parse',
 ]
 RULE = ('random call histories on one decoder state (decode of real-encoder packets of all modes/bandwidths/durations, '
         'bit-flipped / truncated / extended / random packets, synthetic framing of every code incl. self-delimited, NULL and '
@@ -26,8 +28,7 @@ NOT_COVERED = [
     'reached only by sanitizer-instrumented exploration)',
     'finiteness of produced samples (float DSP): searched on the implementation only',
     'range decoder reads (C08) and the symbol layers (C03)',
-    'projection decoder matrix multiply (C10); the projection entry points are exercised by the search only',
-    'C int overflow: all skeleton quantities are bounded by 2^20 on the invariant domain, not proved separately',
+    'projection decoder matrix multiply VALUES (C10); its index ranges are covered by msDecode_writes',
 ]
 ASSUMPTIONS = [
     'len argument does not exceed the supplied buffer (the harness uses exact-size heap blocks under ASan)',
@@ -38,10 +39,11 @@ ASSUMPTIONS = [
     'float build with VAR_ARRAYS, no DRED / deep PLC / OSCE (the configuration of the baseline build)',
 ]
 TRUSTED = ['oracle contracts for silk_Decode / celt_decode_with_ec_dred / ec_dec_bit_logp / ec_dec_uint listed under assumptions']
-UNPROVED = ['msDecode_writes (write extents of the per-stream copy-out into the caller buffer and the projection matrix multiply; '
-            'covered by ASan + canaries in the search)',
-            'msDecode_native_contract (that the per-stream calls of the REAL multistream decoder satisfy MsOracleOk follows from '
-            'decodeNative_ret + the C06 packet_offset, but the composition is not stated as one theorem)']
+UNPROVED = ['projection matrix multiply values (C10 proves matrix_short_saturates; here only its index ranges: msDecode_writes)',
+            'int_ranges is a list of range lemmas for the expressions the C code forms, stated over the guaranteed operand ranges; '
+            'the model itself computes with unbounded Int (no wrap32 instrumentation), and ec_tell < 2^30 is a hypothesis',
+            'decodeNative_depends_on_parse for the whole post-state / inner-call log of two runs on different byte strings '
+            '(only the return value / last_packet_duration: nativeRet_depends_on_parse)']
 LEVEL_TEXT = ('proof of the control skeleton, partial for the property: for every state satisfying the decoder invariant (hence, by '
               'induction, after every history of decode / loss / FEC / reset / gain calls), every packet / NULL, len, frame_size, '
               'decode_fec, self_delimited and every oracle behaviour within the contracts, opus_decode_native returns exactly '
@@ -50,9 +52,11 @@ LEVEL_TEXT = ('proof of the control skeleton, partial for the property: for ever
               'recursion, recursion depth of opus_decode_frame <= 2), passes only legal arguments to SILK and CELT, keeps every '
               'recorded read/write extent inside the caller buffer or the scratch buffer allocated for it, returns the announced '
               'duration = last_packet_duration, leaves the state untouched on error, and preserves the invariant; likewise the '
-              'three format wrappers; the multistream loop never returns INTERNAL_ERROR given per-stream results within the '
-              'single-stream contract. The SILK/CELT synthesis interior, the multistream copy-out and sample finiteness are not '
-              'modelled (sanitizer-instrumented search only)')
+              'three format wrappers; the multistream / projection decoder with its REAL per-stream calls (composition with the '
+              'single-stream skeleton, the validation pass and C10 routing): documented results, never INTERNAL_ERROR, all stream '
+              'states keep the invariant, every per-stream access inside buf / its scratch buffer, every copy-out index inside '
+              'the caller buffer; 32-bit range lemmas for the skeleton arithmetic. The SILK/CELT synthesis interior and sample '
+              'finiteness are not modelled (sanitizer-instrumented search only)')
 LEVEL_NOTE = ('trusted: Lean kernel; oracle contracts (monitored by the harness wrappers on every explored call); the '
               'correspondence harness (#include of src/opus_decoder.c with the DSP entry points renamed to recording wrappers) '
               'and line protocol; C int modelled as unbounded Int')
